@@ -91,30 +91,41 @@ type c02Run struct {
 // workload (used to attribute a later loss to the documented co-location defect, see DESIGN 7.2).
 type c02Snap struct {
 	holders map[string][]int // key -> members holding a copy
-	coloc   map[string]bool  // key -> a member holds the primary and a replica copy, or a listed backup owner holds nothing
+	coloc   map[string]bool  // key -> some member holds the primary copy and a replica copy of the key
 	live    int
 	first   bool // taken at the instant of the first stop of the run (the cluster was in the middle of a hand-over)
 }
 
 func (r *c02Run) snapshot() {
 	sn := c02Snap{holders: map[string][]int{}, coloc: map[string]bool{}, live: len(r.live()), first: r.fails == 0}
+	want := map[string]bool{}
 	for _, k := range r.keys {
-		kinds := map[int]map[string]bool{}
-		for _, c := range r.cl.Copies("d", k) {
-			m := r.cl.ByName(c.Member)
-			if kinds[m.Idx] == nil {
-				kinds[m.Idx] = map[string]bool{}
-				sn.holders[k] = append(sn.holders[k], m.Idx)
+		want[k] = true
+	}
+	kinds := map[string]map[int]map[string]bool{} // key -> member -> kinds of copies
+	for _, m := range r.cl.Live() {
+		for _, f := range m.DB.VerifDMap().VerifFragments() {
+			if f.Name != "dmap.d" {
+				continue
 			}
-			kinds[m.Idx][c.Kind] = true
+			for _, e := range f.Entries {
+				if !want[e.Key] {
+					continue
+				}
+				if kinds[e.Key] == nil {
+					kinds[e.Key] = map[int]map[string]bool{}
+				}
+				if kinds[e.Key][m.Idx] == nil {
+					kinds[e.Key][m.Idx] = map[string]bool{}
+					sn.holders[e.Key] = append(sn.holders[e.Key], m.Idx)
+				}
+				kinds[e.Key][m.Idx][f.Kind] = true
+			}
 		}
-		for _, ks := range kinds {
+	}
+	for k, byMember := range kinds {
+		for _, ks := range byMember {
 			if len(ks) > 1 {
-				sn.coloc[k] = true
-			}
-		}
-		for _, b := range r.cl.Backups(r.live()[0], "d", k) {
-			if b != nil && b.Alive && kinds[b.Idx] == nil {
 				sn.coloc[k] = true
 			}
 		}
@@ -245,7 +256,9 @@ func (r *c02Run) arm(during string) {
 			return simnet.Deliver
 		}
 		x := alts[ch-1]
-		r.trace("at the instant of the fault: " + desc(ch))
+		if c02Trace {
+			r.trace("at the instant of the fault: " + desc(ch))
+		}
 		r.snapshot() // where the copies sit at the instant of the stop
 		r.fails++
 		r.classes = append(r.classes, fmt.Sprintf("%s@%s", simnet.FaultNames[x.f], rpc.Cmd))
@@ -655,7 +668,7 @@ func c02Configs(tier string) []c02Cfg {
 		l    int
 		stab bool
 	}
-	bases := []base{{3, 2, false, 3, true}, {3, 2, true, 2, false}, {4, 2, false, 2, false}, {3, 3, false, 2, false}, {4, 3, true, 1, true}}
+	bases := []base{{3, 2, false, 3, true}, {3, 2, true, 2, false}, {4, 2, false, 2, false}, {3, 3, false, 1, true}, {4, 3, true, 1, false}}
 	if tier == "thorough" {
 		bases = []base{{3, 2, false, 3, true}, {3, 2, true, 3, true}, {4, 2, false, 3, true}, {5, 2, true, 2, true},
 			{3, 3, false, 2, true}, {3, 3, true, 2, false}, {4, 3, false, 2, false}, {4, 3, true, 1, true}, {5, 3, false, 1, true}, {5, 3, true, 2, false}}
